@@ -431,6 +431,7 @@ pub fn def(tier: Tier) -> PropertyDef {
         subs: vec![
             sub("structured_dlt", tier.pick(40_000, 1_000_000), (prop::collection::vec(m(), 1..25), prop::bool::weighted(0.15), prop::bool::weighted(0.6)), structured).rates(&[("yielded_messages", 0.7), ("serial_framing", 0.05)]).boxed(),
             sub("mutated_corpus", tier.pick(15_000, 400_000), (any::<u16>(), prop::collection::vec(mutop, 0..12), prop::bool::weighted(0.5)), mutated).rates(&[("yielded_messages", 0.7), ("corpus_dlt", 0.2), ("corpus_asc", 0.1), ("corpus_logcat", 0.1)]).shrink_iters(500).boxed(),
+            sub("plugin_protocols", tier.pick(20_000, 500_000), prop::collection::vec(crate::props::proto::pitem(), 1..40), plugin_protocols).rates(&[("yielded_messages", 0.9), ("someip_chunk_after_start", 0.2), ("transfer_data_after_start", 0.2)]).boxed(),
             sub("messy_traces", tier.pick(20_000, 500_000), (prop::collection::vec(ev(3), 1..120), prop::bool::weighted(0.3)), messy_bytes).boxed(),
             crate::fuzzing::fuzz_sub("chain_fast", "fuzz_chain_fast", tier.pick(3_000, 30_000)),
             crate::fuzzing::fuzz_sub("chain_plugins", "fuzz_chain_plugins", tier.pick(1_000, 10_000)),
@@ -445,6 +446,20 @@ pub fn def(tier: Tier) -> PropertyDef {
         ],
         workers: 16,
     }
+}
+
+/// hostile but well-shaped plugin trigger sequences (segmented SOME/IP, file transfers, non-verbose ids, CAN, Muniic)
+fn plugin_protocols(v: &Vec<crate::props::proto::PItem>, rep: &mut Rep) -> Result<(), String> {
+    use crate::props::proto::PItem;
+    let mut d = vec![];
+    for (m, _) in crate::props::proto::build(v) {
+        m.to_write(&mut d).map_err(|e| e.to_string())?;
+    }
+    let chunk_after_start = v.iter().enumerate().any(|(i, it)| matches!(it, PItem::Nwch { id, .. } if v[..i].iter().any(|p| matches!(p, PItem::Nwst { id: sid, .. } if sid % 3 == id % 3))));
+    let data_after_start = v.iter().enumerate().any(|(i, it)| matches!(it, PItem::Flda { serial, .. } if v[..i].iter().any(|p| matches!(p, PItem::Flst { serial: s2, .. } if s2 % 3 == serial % 3))));
+    rep.label_if(chunk_after_start, "someip_chunk_after_start");
+    rep.label_if(data_after_start, "transfer_data_after_start");
+    run_chain("dlt", &d, true, rep, false)
 }
 
 fn messy_bytes(v: &(Vec<Ev>, bool), rep: &mut Rep) -> Result<(), String> {
